@@ -115,6 +115,10 @@ var c14IntFaults = []c14Fault{
 	{"arity-too-few", func() *lib.Node { return lib.Call("strlen") }},
 	{"unknown-function-in-argument", func() *lib.Node { return lib.Call("strlen", lib.Call("nosuchfn", lib.Key())) }},
 	{"fault-in-argument", func() *lib.Node { return lib.Call("int", lib.Bin("+", lib.Key(), lib.Int(1))) }},
+	{"vararg-too-few", func() *lib.Node { return lib.Call("len", lib.Call("list")) }},
+	{"fault-in-list-element", func() *lib.Node {
+		return lib.Index(lib.Call("int_list", lib.Int(1), lib.Bin("*", lib.Int(2), lib.Str("x"))), 0)
+	}},
 }
 
 var c14TextFaults = []c14Fault{
@@ -124,6 +128,10 @@ var c14TextFaults = []c14Fault{
 	{"unknown-function-in-argument", func() *lib.Node { return lib.Call("upper", lib.Call("nosuchfn", lib.Key())) }},
 	{"fault-in-argument", func() *lib.Node { return lib.Call("lower", lib.Call("str", lib.Bin("*", lib.Str("a"), lib.Int(2)))) }},
 	{"text-operand-of-/-in-argument", func() *lib.Node { return lib.Call("str", lib.Bin("/", lib.Int(1), lib.Str("x"))) }},
+	{"vararg-too-few", func() *lib.Node { return lib.Call("join", lib.Str(",")) }},
+	{"fault-in-vararg-argument", func() *lib.Node {
+		return lib.Call("join", lib.Str(","), lib.Key(), lib.Bin("-", lib.Str("a"), lib.Int(1)))
+	}},
 }
 
 var c14BoolFaults = []c14Fault{
